@@ -15,27 +15,27 @@ var ErrInjected = errors.New("verifsim: injected I/O error")
 // SimReader is the simulated byte source: what a file, pipe, socket or request
 // body looks like to gobl. All behaviour is decided by its fields (plan data).
 type SimReader struct {
-	Name   string
-	Data   []byte
-	Chunks []int // cycle of maximum bytes per Read; empty or 0 = unlimited
-	Zero   int   // every Zero-th call (Zero >= 2) returns (0, nil) instead of delivering; 0/1 = never
-	EOFAt  int   // >=0: the stream ends cleanly after this many bytes (torn transfer)
-	ErrAt  int   // >=0: Read fails once this many bytes were delivered
-	Err    error // the error for ErrAt (default ErrInjected)
-	ErrWithData bool // deliver the final chunk together with the error (legal per io.Reader)
-	StallAt int  // >=0: nothing more arrives once this many bytes were delivered, until Release
-	X      *X
+	Name        string
+	Data        []byte
+	Chunks      []int // cycle of maximum bytes per Read; empty or 0 = unlimited
+	Zero        int   // every Zero-th call (Zero >= 2) returns (0, nil) instead of delivering; 0/1 = never
+	EOFAt       int   // >=0: the stream ends cleanly after this many bytes (torn transfer)
+	ErrAt       int   // >=0: Read fails once this many bytes were delivered
+	Err         error // the error for ErrAt (default ErrInjected)
+	ErrWithData bool  // deliver the final chunk together with the error (legal per io.Reader)
+	StallAt     int   // >=0: nothing more arrives once this many bytes were delivered, until Release
+	X           *X
 
 	// Gate, when set, is called at the start of every Read (scheduler worlds
 	// park the calling goroutine here until a delivery action is granted).
 	Gate func(r *SimReader)
 
-	mu      sync.Mutex
-	pos     int
-	calls   int
-	stall   chan struct{}
-	fired   map[string]bool
-	Closed  bool
+	mu     sync.Mutex
+	pos    int
+	calls  int
+	stall  chan struct{}
+	fired  map[string]bool
+	Closed bool
 }
 
 // NewSimReader returns a reader without faults.
@@ -210,7 +210,11 @@ func (w *SimWriter) Write(p []byte) (int, error) {
 }
 
 // Bytes returns what was written.
-func (w *SimWriter) Bytes() []byte { w.mu.Lock(); defer w.mu.Unlock(); return append([]byte(nil), w.Buf.Bytes()...) }
+func (w *SimWriter) Bytes() []byte {
+	w.mu.Lock()
+	defer w.mu.Unlock()
+	return append([]byte(nil), w.Buf.Bytes()...)
+}
 
 // Header/WriteHeader make SimWriter usable as an http.ResponseWriter body.
 
